@@ -8,6 +8,7 @@ type WorldSpec struct {
 	GCPeriodNs  int64      `json:"gc_ns"`
 	MaxDirCount uint64     `json:"max_dir"`
 	SeqBase     uint64     `json:"seq_base,omitempty"`
+	RootStyle   int        `json:\"root_style,omitempty\"` // spelling of the roots in the configuration: 0 clean, 1 trailing slash, 2 with a /./ segment, 3 doubled slash
 }
 
 type RootSpec struct {
